@@ -99,6 +99,25 @@ func ddSig(want int64) string {
 	return "datediff/not-day-difference"
 }
 
+// greedyAdjacent: a specifier parsed with takeNumber (all following digits) is directly followed by a
+// specifier or literal that renders with a leading digit.
+func greedyAdjacent(fm string) bool {
+	const greedy = "cefHkhIlisSjD"
+	const digitFirst = "YymcdeDHkhIlisSfjTr"
+	for i := 0; i+1 < len(fm); i++ {
+		if fm[i] == '%' && strings.IndexByte(greedy, fm[i+1]) >= 0 && fm[i+1] != 'D' {
+			j := i + 2
+			if j < len(fm) && ((fm[j] >= '0' && fm[j] <= '9') || (fm[j] == '%' && j+1 < len(fm) && strings.IndexByte(digitFirst, fm[j+1]) >= 0)) {
+				return true
+			}
+		}
+		if fm[i] == '%' {
+			i++
+		}
+	}
+	return false
+}
+
 func ymd(y, m, d int64) string { return fmt.Sprintf("%04d-%02d-%02d", y, m, d) }
 func hms(t int64) string       { return fmt.Sprintf("%02d:%02d:%02d", t/3600, t/60%60, t%60) }
 
@@ -381,15 +400,26 @@ func run(c *lib.Ctx, e *eng.E, cs caseT) {
 			fail("date_format/failed", fmt.Sprintf("%s failed: %s", q, x.err))
 			break
 		}
+		if strings.Contains(fm, "%y") {
+			qy := fmt.Sprintf("SELECT DATE_FORMAT('%s', '%%y')", lit)
+			xy := r.query(qy)
+			if xy.s != fmt.Sprintf("%02d", y%100) && !xy.isN {
+				fail("date_format/two-digit-year-unpadded", fmt.Sprintf("%s = '%s', expected '%02d'", qy, xy.s, y%100))
+			}
+		}
 		q2 := fmt.Sprintf("SELECT STR_TO_DATE('%s', '%s')", x.s, fm)
 		b := r.query(q2)
 		want := time.Date(int(y), time.Month(m), int(d), 0, 0, 0, 0, time.UTC).Add(time.Duration(tod)*time.Second + time.Duration(us)*time.Microsecond)
 		if !b.isT || !b.t.Equal(want) {
+			// root cause computed from the shape of the input (format + value), in a fixed order
 			sig := "format-parse/not-inverse"
 			pm := tod >= 12*3600 || tod < 3600
-			if (strings.Contains(fm, "%p") || strings.Contains(fm, "%r")) && pm {
+			switch {
+			case strings.Contains(fm, "%y") && y%100 < 10:
+				sig = "date_format/two-digit-year-unpadded"
+			case (strings.Contains(fm, "%p") || strings.Contains(fm, "%r")) && pm:
 				sig = "str_to_date/am-pm-ignored"
-			} else if b.null && (strings.Contains(fm, "%H%i") || strings.Contains(fm, "%i%s") || strings.Contains(fm, "%d%H") || strings.Contains(fm, "%e%H")) {
+			case greedyAdjacent(fm):
 				sig = "str_to_date/adjacent-numeric-fields-greedy"
 			}
 			got := b.err + b.s
@@ -449,6 +479,7 @@ func main() {
 			{Fam: "format", Fmt: "%Y-%m-%d %H:%i:%s.%f", In: []int64{2024, 2, 29, 86399, 123456}},
 			{Fam: "format", Fmt: "%Y%m%d%H%i%s", In: []int64{2032, 2, 28, 86329, 0}},
 			{Fam: "datediff", In: []int64{2337, 10, 4, 1964, 2, 21}},
+			{Fam: "format", Fmt: "%y%m/%d at %H.%i:%S", In: []int64{2002, 8, 30, 76556, 0}},
 			{Fam: "addmonths", In: []int64{2024, 1, 31, 1}},
 			{Fam: "addmonths", In: []int64{2024, 1, 15, -1}},
 			{Fam: "addyears", In: []int64{2024, 2, 29, 1}},
